@@ -323,8 +323,12 @@ func (e *Exec) runPath(fn *ssa.Function) (out *pathEnd) {
 
 func (e *Exec) reportPanic(p *goPanic) *pathEnd {
 	detail := p.kind + ": " + p.detail
-	v := &Violation{Harness: e.res.Name, AssertID: "no-panic", Kind: "panic", Detail: detail, Path: e.res.Paths}
-	v.Model = e.extractModel()
+	v := &Violation{Harness: e.res.Name, AssertID: "no-panic", Kind: "panic", Detail: detail + e.pathNotes(), Path: e.res.Paths}
+	if e.solver.Check() == Sat {
+		v.Model = e.extractModel()
+	} else {
+		v.Model = map[string]string{"_error": "path condition not confirmed satisfiable"}
+	}
 	e.res.Obligations++
 	e.res.Violations = append(e.res.Violations, v)
 	return &pathEnd{kind: "violation", detail: "uncaught panic " + detail}
